@@ -63,6 +63,8 @@ pub struct SimStream {
     pub io_calls: usize,
     pub max_offered: usize,
     pub failed: bool,
+    /// Implements `write_vectored` natively (gathering all buffers) instead of std's default.
+    pub vectored: bool,
     pub zeroed: bool,
     pub log_calls: bool,
 }
@@ -89,6 +91,7 @@ impl SimStream {
             io_calls: 0,
             max_offered: 0,
             failed: false,
+            vectored: false,
             zeroed: false,
             log_calls: false,
         }
@@ -238,6 +241,19 @@ impl Write for SimStream {
             self.cx.hash_event("write", &(idx, n));
         }
         Ok(n)
+    }
+
+    /// A sink with native gather writes (when `vectored` is set): takes a drawn number of bytes
+    /// across the buffers, so a short write may end anywhere, also between two buffers' bytes.
+    /// Otherwise the standard behaviour: the first non-empty buffer goes through `write`.
+    fn write_vectored(&mut self, bufs: &[io::IoSlice<'_>]) -> io::Result<usize> {
+        if !self.vectored {
+            let first = bufs.iter().find(|b| !b.is_empty()).map(|b| &**b).unwrap_or(&[]);
+            return self.write(first);
+        }
+        self.cx.probe("native_vectored_write");
+        let all: Vec<u8> = bufs.iter().flat_map(|b| b.iter().copied()).collect();
+        self.write(&all)
     }
 
     fn flush(&mut self) -> io::Result<()> {
